@@ -230,6 +230,14 @@ func (e *env) setup() error {
 	}
 	e.ic.CloseSession(actx, &emptypb.Empty{})
 
+	// users of the session-transaction flows: <role> on db1 and Admin on db3 (completed by resetXUser)
+	for role, name := range xUser {
+		if err := mk(sys, name, 254, "db3"); err != nil {
+			return err
+		}
+		_ = role
+	}
+
 	for _, db := range dataDBs {
 		if err := e.plant(db); err != nil {
 			return fmt.Errorf("plant %s: %w", db, err)
